@@ -154,6 +154,57 @@ example : route ⟨none, false, false, false, false, [.http11, .h2]⟩ ⟨.https
 example : route ⟨none, true, false, false, false, [.http11, .h2]⟩ ⟨.https, false⟩
     ⟨[.h2, .http11], true, true, true, false, .fail, false, false, true⟩ = .ok .h3 := by decide
 
+/-- **No connection without verification.** A request carried over a NEW connection (nothing
+cached, no user-supplied dial/handshake function) went through a handshake that the
+configuration in force accepted: QUIC's for HTTP/3, the TCP one otherwise. -/
+theorem new_connection_was_accepted (cfg : Cfg) (req : Req) (net : Net) (v : Ver)
+    (hs : req.scheme = .https) (hc2 : net.cachedH2 = false) (hc3 : net.cachedH3 = false)
+    (hd : cfg.dialTLS = false) (hh : cfg.handshake = false)
+    (h : route cfg req net = .ok v) :
+    (v = .h3 → net.quicAccept = true) ∧ (v ≠ .h3 → net.tcpAccept = true) := by
+  have t3c : ∀ {w}, t3RoundTrip cfg req net = .ok w → w = .h3 ∧ net.quicAccept = true := by
+    intro w hw
+    obtain ⟨rfl, hq⟩ := t3_ok hw
+    rcases hq with hq | hq
+    · rw [hc3] at hq; cases hq
+    · exact ⟨rfl, hq.2⟩
+  have h1c : h1Path cfg req net = .ok v → v ≠ .h3 ∧ net.tcpAccept = true := by
+    intro hp
+    rcases h1Path_ok hp with ⟨hh', _⟩ | ⟨_, st, hst, hc⟩
+    · rw [hs] at hh'; cases hh'
+    · have hv : v ≠ .h3 := by
+        rcases carry_ok hc with ⟨rfl, _⟩ | ⟨rfl, _⟩ <;> simp
+      refine ⟨hv, ?_⟩
+      unfold dialTlsState at hst
+      simp [hd, hh] at hst
+      split at hst
+      · cases hst
+      · split at hst
+        · cases hst
+        · simp_all
+  unfold route at h
+  split at h
+  · obtain ⟨rfl, hq⟩ := t3c h
+    exact ⟨fun _ => hq, fun hne => absurd rfl hne⟩
+  · unfold dispatch at h
+    split at h
+    · obtain ⟨rfl, hq⟩ := t3c h
+      exact ⟨fun _ => hq, fun hne => absurd rfl hne⟩
+    · have hv2 := (t2_ok h).1
+      subst hv2
+      refine ⟨fun hv => (by cases hv), fun _ => ?_⟩
+      unfold t2RoundTrip at h
+      split at h
+      · cases h
+      · simp [hc2] at h
+        exact t2Dial_ok_accept hd hh h
+    · simp [hs, hc2, hc3] at h
+      obtain ⟨hv, ha⟩ := h1c h
+      exact ⟨fun h3 => absurd h3 hv, fun _ => ha⟩
+
+example : route ⟨none, false, false, false, false, [.http11, .h2]⟩ ⟨.https, false⟩
+    ⟨[.h2, .http11], false, false, false, false, .fail, false, false, false⟩ = .error .tlsReject := by decide
+
 /-- **Plain HTTP** is carried by HTTP/1.1, or by HTTP/2 prior knowledge when h2c is enabled
 (and HTTP/2 is forced) — never by HTTP/3, whatever Alt-Svc entry exists. -/
 theorem plain_http_h1_or_h2c (cfg : Cfg) (req : Req) (net : Net) (v : Ver)
